@@ -103,26 +103,7 @@ func runDynamic(t Tools, dir string, seed uint64, tier string, out *vl.Out) dynS
 		}
 	}
 	st.Combos = len(combos)
-	// wave 1: nRuns runs per combo, all in parallel
-	pool(len(combos)*nRuns, func(k int) {
-		c, i := combos[k/nRuns], k%nRuns
-		cwd := filepath.Join(c.dir, fmt.Sprintf("r%d", i))
-		outArg := "out"
-		if i%2 == 1 && !c.o.Plugin { // an absolute output directory with its own name
-			outArg = filepath.Join(cwd, fmt.Sprintf("abs-out-%d", i))
-		}
-		c.res[i] = runOne(t, c.o, c.idl, cwd, outArg, gmp[i%len(gmp)])
-	})
-	// wave 2: once more, into a directory that already holds the output of a previous run (a copy of
-	// run 0's, so that run 0's own files stay available for attribution)
-	pool(len(combos), func(k int) {
-		c := combos[k]
-		cwd := filepath.Join(c.dir, "again")
-		copyTree(filepath.Join(c.dir, "r0", "out"), filepath.Join(cwd, "out"))
-		c.res[nRuns] = runOne(t, c.o, c.idl, cwd, "out", gmp[2])
-	})
 	st.Executions = len(combos) * (nRuns + 1)
-	fmt.Fprintf(os.Stderr, "c07: %d executions of thriftgo in %.1fs\n", st.Executions, time.Since(t00).Seconds())
 	type found struct {
 		o OptSet
 		d *Diff
@@ -148,57 +129,82 @@ func runDynamic(t Tools, dir string, seed uint64, tier string, out *vl.Out) dynS
 		return false
 	}
 	seenCombo := map[string]bool{}
-	for ci, c := range combos {
-		ref := c.res[0]
-		if ref.Exit != 0 {
-			allFail := true
-			for _, x := range c.res {
-				allFail = allFail && x.Exit != 0
+	// batches of 8 programs keep the disk footprint small: run, compare, delete
+	all := combos
+	for base := 0; base < len(all); base += 8 * nOpt {
+		combos := all[base:min(base+8*nOpt, len(all))]
+		// wave 1: nRuns runs per combo, all in parallel
+		pool(len(combos)*nRuns, func(k int) {
+			c, i := combos[k/nRuns], k%nRuns
+			cwd := filepath.Join(c.dir, fmt.Sprintf("r%d", i))
+			outArg := "out"
+			if i%2 == 1 && !c.o.Plugin { // an absolute output directory with its own name
+				outArg = filepath.Join(cwd, fmt.Sprintf("abs-out-%d", i))
 			}
-			if allFail {
-				st.CombosRejected = append(st.CombosRejected, fmt.Sprintf("p%d/%s: %s", c.pi, c.o.Name, clip(strings.TrimSpace(ref.Stderr), 200)))
-				os.RemoveAll(c.dir)
-				continue
+			c.res[i] = runOne(t, c.o, c.idl, cwd, outArg, gmp[i%len(gmp)])
+		})
+		// wave 2: once more, into a directory that already holds the output of a previous run (a copy of
+		// run 0's, so that run 0's own files stay available for attribution)
+		pool(len(combos), func(k int) {
+			c := combos[k]
+			cwd := filepath.Join(c.dir, "again")
+			copyTree(filepath.Join(c.dir, "r0", "out"), filepath.Join(cwd, "out"))
+			c.res[nRuns] = runOne(t, c.o, c.idl, cwd, "out", gmp[2])
+		})
+		for bi, c := range combos {
+			ci := base + bi
+			ref := c.res[0]
+			if ref.Exit != 0 {
+				allFail := true
+				for _, x := range c.res {
+					allFail = allFail && x.Exit != 0
+				}
+				if allFail {
+					st.CombosRejected = append(st.CombosRejected, fmt.Sprintf("p%d/%s: %s", c.pi, c.o.Name, clip(strings.TrimSpace(ref.Stderr), 200)))
+					os.RemoveAll(c.dir)
+					continue
+				}
 			}
-		}
-		st.CombosAccepted++
-		st.FilesCompared += len(ref.Files) * (len(c.res) - 1)
-		st.PluginRequests += len(ref.Rec) * (len(c.res) - 1)
-		if len(ref.Files) > 0 || len(ref.Rec) > 0 {
-			h := fmt.Sprint(c.pi, "/", c.o.Name)
-			if !seenCombo[h] {
-				seenCombo[h] = true
-				st.DistinctAccepted++
+			st.CombosAccepted++
+			st.FilesCompared += len(ref.Files) * (len(c.res) - 1)
+			st.PluginRequests += len(ref.Rec) * (len(c.res) - 1)
+			if len(ref.Files) > 0 || len(ref.Rec) > 0 {
+				h := fmt.Sprint(c.pi, "/", c.o.Name)
+				if !seenCombo[h] {
+					seenCombo[h] = true
+					st.DistinctAccepted++
+				}
 			}
-		}
-		var first *Diff
-		for _, x := range c.res[1:] {
-			if d := compare(ref, x); d != nil {
-				first = d
-				break
+			var first *Diff
+			for _, x := range c.res[1:] {
+				if d := compare(ref, x); d != nil {
+					first = d
+					break
+				}
 			}
-		}
-		if len(st.Samples) < 4 && ci%5 == 0 {
-			st.Samples = append(st.Samples, map[string]interface{}{"suite": "dynamic", "cmdline": c.o.Symbolic(), "idl_files": len(c.p.Files),
-				"idl_lines": c.p.NLines(), "output_files": len(ref.Files), "runs": len(c.res), "differs": first != nil,
-				"main_idl_head": c.p.Files[0].Lines[:min(6, len(c.p.Files[0].Lines))]})
-		}
-		if first != nil {
-			st.CombosDiffering++
-			sig := c.o.Backend + ":" + first.Kind + ":" + first.Pattern + ":" + first.Attr
-			st.DifferingByKey[sig]++
-			if !covered(c.o, first) {
-				t0 := time.Now()
-				p2, o2, d2, tests := shrink(t, c.p, c.o, first, filepath.Join(dir, "shrink", fmt.Sprint(ci)), 12, budget, limit)
-				fmt.Fprintf(os.Stderr, "c07: shrunk %s (%s %s %s) to %d lines, %s in %d tests, %.1fs\n", c.o.Name, first.Kind, first.Pattern, first.Attr,
-					p2.NLines(), o2.gArg(), tests, time.Since(t0).Seconds())
-				st.ShrinkTests += tests
-				minimal = append(minimal, found{o2, d2})
-				out.Fail(mkFail(p2, o2, d2, 40))
+			if len(st.Samples) < 4 && ci%5 == 0 {
+				st.Samples = append(st.Samples, map[string]interface{}{"suite": "dynamic", "cmdline": c.o.Symbolic(), "idl_files": len(c.p.Files),
+					"idl_lines": c.p.NLines(), "output_files": len(ref.Files), "runs": len(c.res), "differs": first != nil,
+					"main_idl_head": c.p.Files[0].Lines[:min(6, len(c.p.Files[0].Lines))]})
 			}
+			if first != nil {
+				st.CombosDiffering++
+				sig := c.o.Backend + ":" + first.Kind + ":" + first.Pattern + ":" + first.Attr
+				st.DifferingByKey[sig]++
+				if !covered(c.o, first) {
+					t0 := time.Now()
+					p2, o2, d2, tests := shrink(t, c.p, c.o, first, filepath.Join(dir, "shrink", fmt.Sprint(ci)), 12, budget, limit)
+					fmt.Fprintf(os.Stderr, "c07: shrunk %s (%s %s %s) to %d lines, %s in %d tests, %.1fs\n", c.o.Name, first.Kind, first.Pattern, first.Attr,
+						p2.NLines(), o2.gArg(), tests, time.Since(t0).Seconds())
+					st.ShrinkTests += tests
+					minimal = append(minimal, found{o2, d2})
+					out.Fail(mkFail(p2, o2, d2, 40))
+				}
+			}
+			os.RemoveAll(c.dir)
 		}
-		os.RemoveAll(c.dir)
 	}
+	fmt.Fprintf(os.Stderr, "c07: %d executions of thriftgo and comparisons in %.1fs\n", st.Executions, time.Since(t00).Seconds())
 	os.RemoveAll(filepath.Join(dir, "dyn"))
 	os.RemoveAll(filepath.Join(dir, "shrink"))
 	return st
